@@ -1,4 +1,5 @@
 #!/bin/bash
+export VERIF_EVIDENCE_DIR=/verif/build/evidence-scratch   # never overwrite the real evidence with runs on patched trees
 # tools/try_patch.sh <patch.diff> <PROP>... : apply a patch to /repo, run the checks, undo.  For self-testing only.
 p=$1; shift
 git -C /repo apply "$p" || { echo "patch does not apply"; exit 3; }
